@@ -100,7 +100,7 @@ class ApiProcess:
     """A simulated process as far as the CasADi API is concerned: a fresh module instance of
     pymoca.backends.casadi.api bound to its own version label."""
 
-    def __init__(self, label):
+    def __init__(self, label, marker=True):
         import pymoca
         import pymoca.backends.casadi.api as real_api  # noqa: F401  (makes sure the package is imported)
 
@@ -121,6 +121,18 @@ class ApiProcess:
             pymoca.__version__ = saved
         mod.__version__ = label
         self.mod = mod
+        # Give the label the meaning it has in reality (another version may compile differently): every model this
+        # version compiles carries a marker output named after the label (the real function is wrapped, not replaced).
+        if marker and hasattr(mod, "_compile_model"):
+            orig = mod._compile_model
+            mname = marker_name(label)
+
+            def _compile_model(*a, **k):
+                model = orig(*a, **k)
+                model.outputs = list(model.outputs) + [mname]
+                return model
+
+            mod._compile_model = _compile_model
 
     def transfer_model(self, folder, name, options):
         return self.mod.transfer_model(folder, name, dict(options))
